@@ -1,6 +1,7 @@
 (** C09 — StreamOutcome reports exactly what was and was not run. *)
 From FG Require Import Dag Builder Sched DagFacts EdgeFacts RankFacts BuilderFacts TopoFacts AugFacts BuildFacts
-     SchedInv SchedInv2 SafetyFacts CfgFacts SI_Queuer SI_Step SI2_Step SafetyInv OutcomeFacts CarryOver.
+     SchedInv SchedInv2 SafetyFacts CfgFacts SI_Queuer SI_Step SI2_Step SafetyInv OutcomeFacts CarryOver
+     SelfSignal SelfSignalInv SelfSignalInv2.
 From Coq Require Import Permutation.
 
 (** Both invariants hold in every reachable state of every call on every built graph. *)
@@ -52,6 +53,52 @@ Proof.
     + split; [discriminate|]. intros [_ Hf]. rewrite Hf in Hperm. apply Permutation_sym, Permutation_nil in Hperm. discriminate.
 Qed.
 Print Assumptions C09_outcome_exact.
+
+(** ... and when a user future sends the interrupt signal itself, inside a poll of the call
+    ([SelfSignal.run_sig], any signalling function; known finding F4 concerns the C08 bound only). *)
+Lemma run_sig_invs : forall ops G p q rev a mt ctl lim st incl imm sg evs,
+  build (builder_run ops) = BOk G p q ->
+  let cf := mk_cfg G rev a mt ctl lim st incl imm true in
+  Inv cf (fst (run_sig sg cf evs)) /\ Inv2 cf (fst (run_sig sg cf evs)) /\ c_n cf = ncount (builder_run ops).
+Proof.
+  intros ops G p q rev a mt ctl lim st incl imm sg evs Hb cf.
+  pose proof (build_ok_intro ops G p q Hb) as Hok.
+  destruct (inv2_run_sig sg cf evs (cfg_ok_mk _ _ _ _ rev a mt ctl lim st incl imm true Hok) eq_refl) as [H1 H2].
+  split; [exact H1|]. split; [exact H2|]. unfold cf, mk_cfg. simpl. unfold fg_n. rewrite (bo_nodes _ _ _ _ Hok). reflexivity.
+Qed.
+
+Theorem C09_outcome_exact_when_a_user_future_sends_the_signal : forall ops G p q rev a mt ctl lim st incl imm sg evs o,
+  build (builder_run ops) = BOk G p q ->
+  let cf := mk_cfg G rev a mt ctl lim st incl imm true in
+  let s := fst (run_sig sg cf evs) in
+  result s = Some o -> s_err s = None ->
+  o_processed o = starts (trace s) /\
+  o_not_processed o = filter (fun i => negb (mem i (starts (trace s)))) (seq 0 (ncount (builder_run ops))) /\
+  (o_finished o = true <-> length (starts (trace s)) = ncount (builder_run ops)) /\
+  (a = ATryForEach -> ctl = true ->
+     (o_kind o = KContinue <-> (o_finished o = true /\ failed (trace s) = []))).
+Proof.
+  intros ops G p q rev a mt ctl lim st incl imm sg evs o Hb cf s Hres Herr.
+  destruct (run_sig_invs ops G p q rev a mt ctl lim st incl imm sg evs Hb) as (H1 & H2 & Hn). fold cf in H1, H2, Hn. fold s in H1, H2.
+  assert (Hapi : c_api cf = a) by reflexivity.
+  assert (Hctl : c_ctl cf = ctl) by reflexivity.
+  clearbody s. clearbody cf.
+  destruct (ret_flags cf s o H2 Hres) as (_ & _ & Ho).
+  destruct (make_result_fields cf s (or_introl Herr)) as (F1 & F2 & F3 & F4 & F5).
+  pose proof (ret_processed cf s o H2 Hres) as Hp.
+  pose proof (ret_finished_iff cf s o H1 H2 Hres Herr) as Hfin.
+  subst o. rewrite F1, F2, F3, Hp. unfold not_processed. rewrite Hp, Hn.
+  split; [reflexivity|]. split; [reflexivity|]. split.
+  - rewrite Nat.eqb_eq, <- Hn. exact Hfin.
+  - intros Ha Hc. rewrite F5, Hapi, Hctl, Ha, Hc.
+    assert (Ht : is_tfe (c_api cf) = true) by (rewrite Hapi, Ha; reflexivity).
+    pose proof (ret_errs_exact cf s _ H1 H2 Hres Ht) as Hperm.
+    destruct (errs s) as [|e l] eqn:He; simpl.
+    + apply Permutation_nil in Hperm. destruct (s_rem s =? 0); split; try tauto; try discriminate.
+      intros [Hd _]. discriminate.
+    + split; [discriminate|]. intros [_ Hf]. rewrite Hf in Hperm. apply Permutation_sym, Permutation_nil in Hperm. discriminate.
+Qed.
+Print Assumptions C09_outcome_exact_when_a_user_future_sends_the_signal.
 
 (** The same for a call that starts on an InterruptibilityState shared with earlier operations
     (`reborrow()`): whatever was carried over – a signal already received ([recv]), the polls counted
